@@ -64,8 +64,12 @@ func genCase(t *rapid.T) aggh.XCase {
 	for i := 0; i < 2; i++ {
 		c.Flows[i].CorrS = genCorr(t, c.Flows[i].V6, "s")
 		c.Flows[i].CorrD = genCorr(t, c.Flows[i].V6, "d")
-		c.Flows[i].CorrS.EgrAct = uint8(rapid.IntRange(0, 1).Draw(t, "egr"))
-		c.Flows[i].CorrD.IngAct = uint8(rapid.IntRange(0, 2).Draw(t, "ing"))
+		// rule actions that keep the flow in need of correlation: egress no-action/allow, ingress
+		// no-action/allow/drop; each node reports its own view (0 = nothing to report)
+		c.Flows[i].CorrS.EgrAct = uint8(rapid.IntRange(0, 1).Draw(t, "egr_s"))
+		c.Flows[i].CorrD.EgrAct = uint8(rapid.IntRange(0, 1).Draw(t, "egr_d"))
+		c.Flows[i].CorrS.IngAct = uint8(rapid.IntRange(0, 2).Draw(t, "ing_s"))
+		c.Flows[i].CorrD.IngAct = uint8(rapid.IntRange(0, 2).Draw(t, "ing_d"))
 	}
 	switch c.Flows[2].Kind {
 	case aggh.KindInterEgressDeny:
